@@ -10,7 +10,7 @@
 import KiraModel.Exec.SuiteParam
 import KiraModel.Model.Effects.Reverb
 
-namespace K.Exec
+namespace K.Exec.FxB
 open K K.Proto
 
 /-- the feedback chain of the twin: probe effects + the slice lengths the first one was given -/
@@ -177,4 +177,4 @@ def fxbStep (st : FxbState) (tok : List String) : Option (FxbState × String) :=
               s!"h {toHex acc.hash.toNat 16} {acc.bad} {show32 acc.last.left} {show32 acc.last.right}")
   | _ => none
 
-end K.Exec
+end K.Exec.FxB
